@@ -517,7 +517,8 @@ func (b *ASTBuilder) buildTryStatement(tsNode *sitter.Node) *Node {
 	childCount := int(tsNode.ChildCount())
 	for i := 0; i < childCount; i++ {
 		child := tsNode.Child(i)
-		if child != nil && child.Type() == "except_clause" {
+		// except_group_clause is "except* E:" (Python 3.11); it handles exceptions like any other clause
+		if child != nil && (child.Type() == "except_clause" || child.Type() == "except_group_clause") {
 			if handler := b.buildExceptHandler(child); handler != nil {
 				node.Handlers = append(node.Handlers, handler)
 			}
@@ -1666,7 +1667,7 @@ func (b *ASTBuilder) buildExceptHandler(tsNode *sitter.Node) *Node {
 					node.Body = b.extractBlockBody(body, node)
 				}
 			default:
-				if child.Type() != "except" && child.Type() != ":" {
+				if child.Type() != "except" && child.Type() != "except*" && child.Type() != "*" && child.Type() != ":" {
 					// Exception type without alias
 					node.Value = b.buildNode(child)
 				}
